@@ -5564,6 +5564,7 @@ class Select(
             ("_fetch_clause_options", InternalTraversal.dp_plain_dict),
             ("_for_update_arg", InternalTraversal.dp_clauseelement),
             ("_distinct", InternalTraversal.dp_boolean),
+            ("_auto_correlate", InternalTraversal.dp_boolean),
             ("_distinct_on", InternalTraversal.dp_clauseelement_tuple),
             ("_label_style", InternalTraversal.dp_plain_obj),
             ("_post_select_clause", InternalTraversal.dp_clauseelement),
